@@ -601,7 +601,7 @@ def generate(ctx: Ctx) -> List[Case]:
                     jobs.append(({"kind": "routing", "types": list(subset), "placement": placement, "variant": variant,
                                   "ops": "ALL"}, f"g{i}"))
                     i += 1
-    n_series = 50000 if ctx.thorough else 500
+    n_series = 50000 if ctx.thorough else 2000
     for _ in range(n_series):
         types, placement, variant = ctx.rng.choice(SERIES_CFGS)
         n = ctx.rng.randrange(1, 7)
